@@ -12,7 +12,7 @@ def _c16_case(c):
 
 
 # ---------- in-Coq re-evaluation of a sample of correspondence cases (thorough tier) ----------
-_VM_PRELUDE = """From Oras Require Import Base.Prelude Model.Scopes Model.Challenge Model.AuthClient Model.Once Model.CacheSet.
+_VM_PRELUDE = """From Oras Require Import Base.Prelude Model.Scopes Model.Challenge Model.AuthClient Model.Once Model.CacheSet Model.Redirect.
 Definition chproj (h : str) :=
   match parse_challenge h with
   | ChUnjudged => None
@@ -90,6 +90,16 @@ def _vm_goal(case, out):
         o = out.split(" ")
         sch = {"unknown": "SchUnknown", "basic": "SchBasic", "bearer": "SchBearer"}[o[1]]
         return "chproj %s = Some (%s, %s%%nat, %s, %s, %s)" % (h, sch, o[2], _cstr(o[3]), _cstr(o[4]), _cstr(o[5]))
+    if k == "RD":
+        a, c, st = t.next(), t.next(), t.next()
+        flags = t.l[t.i:]
+        o = out.split(" ")
+        goals = []
+        if "noauth" not in flags:
+            goals.append("keeps_authorization %s %s = %s" % (_cstr(a), _cstr(c), "true" if o[0] == "AUTH-KEPT" else "false"))
+        if "nobody" not in flags:
+            goals.append("keeps_body %s = %s" % (st, "true" if o[1] == "BODY-KEPT" else "false"))
+        return " /\\ ".join(goals) if goals else None
     if k == "O":
         n = int(t.next())
         evs = []
@@ -129,6 +139,7 @@ def _vm_goal(case, out):
         for _ in range(int(t.next())):
             h, f = t.next(), t.next()
             creds.append("(%s, mkCred %s)" % (h, " ".join("true" if c == "1" else "false" for c in f)))
+        errs = [t.next() for _ in range(int(t.next()))]
         ptable = []
         for _ in range(int(t.next())):
             hdr, sch, realm, service, scope = t.next(), t.next(), t.next(), t.next(), t.next()
@@ -137,14 +148,14 @@ def _vm_goal(case, out):
         hist = []
         for _ in range(int(t.next())):
             h = t.next()
-            body = {"none": "BNone", "rewind": "BRewindable", "once": "BOnce"}[t.next()]
+            body = {"none": "BNone", "rewind": "BRewindable", "once": "BOnce", "geterr": "BGetBodyErr"}[t.next()]
             hh = t.strs()
             gh = t.strs()
             script = []
             for _ in range(int(t.next())):
                 a = t.next()
                 script.append({"K": "AOk", "F": "AFail", "X": "AErr"}.get(a[0]) or
-                              ("A401 %s" % _cstr(a[1:]) if a[0] == "U" else "ATok %s" % a[1:]))
+                              ("A401 %s" % _cstr(a[1:]) if a[0] == "U" else ("AShare %s" % a[1:] if a[0] == "S" else "ATok %s" % a[1:])))
             hist.append("(mkReq %s %s %s %s, [%s])" % (h, _clist(hh), _clist(gh), body, "; ".join(script)))
         exp = []
         for part in out.split(" | "):
@@ -153,7 +164,7 @@ def _vm_goal(case, out):
             for w in part.split(" "):
                 if w.startswith("="):
                     res = {"=401": "RResp true", "=ok": "RResp false", "=nocred": "RErr ENoCred", "=missing": "RErr EMissing",
-                           "=fetch": "RErr EFetch", "=rewind": "RErr ERewind", "=transport": "RErr ETransport"}[w]
+                           "=fetch": "RErr EFetch", "=rewind": "RErr ERewind", "=transport": "RErr ETransport", "=crederr": "RErr ECred"}[w]
                 elif w[0] == "R":
                     h, a = w[1:].split(":", 1)
                     sends.append("PReg %s %s" % (h, _cauth(a)))
@@ -165,7 +176,7 @@ def _vm_goal(case, out):
                     else:
                         sends.append("POAuth %s %s %s %s %s" % (h, _cstr(realm), _cstr(service), _cstr(scopes), _csecret(last)))
             exp.append("([%s], %s)" % ("; ".join(sends), res))
-        return "proj_run (run_model %s %s [%s] [%s] [%s]) = [%s]" % (fl, oauth2, "; ".join(creds), "; ".join(ptable), "; ".join(hist), "; ".join(exp))
+        return "proj_run (run_model %s %s [%s] [%s] [%s] [%s]) = [%s]" % (fl, oauth2, "; ".join(creds), "; ".join(errs), "; ".join(ptable), "; ".join(hist), "; ".join(exp))
     return None
 
 
@@ -178,7 +189,7 @@ def _c16_vm_sample(d, tier, coq, build, want=300):
         for l in f:
             i, _, o = l.rstrip("\n").partition(" ")
             outs[i] = o
-    quota = {"S": 80, "A": 40, "G": 30, "C": 80, "H": 30, "O": 25, "KS": 25}
+    quota = {"S": 80, "A": 40, "G": 30, "C": 80, "H": 30, "O": 25, "KS": 25, "RD": 30}
     total = collections.Counter()
     with open(os.path.join(d, "cases.txt")) as f:
         for l in f:
@@ -220,33 +231,34 @@ def _c16_vm_sample(d, tier, coq, build, want=300):
 
 CONFIG = {
     "properties_file": "Properties/C16.v",
-    "proof_files": ["Base/Prelude.v", "Proofs/Scopes.v", "Proofs/ScopesIdem.v", "Proofs/AuthClient.v", "Proofs/AuthHistory.v", "Proofs/Once.v", "Proofs/CacheSet.v"],
-    "model_files": ["Generated/GC16.v", "Model/Scopes.v", "Model/Challenge.v", "Model/AuthClient.v", "Model/Once.v", "Model/CacheSet.v"],
+    "proof_files": ["Base/Prelude.v", "Proofs/Scopes.v", "Proofs/ScopesIdem.v", "Proofs/AuthClient.v", "Proofs/AuthHistory.v", "Proofs/Once.v", "Proofs/CacheSet.v", "Proofs/OnceSlot.v", "Proofs/AuthConc.v", "Proofs/Redirect.v", "Proofs/AuthOrder.v"],
+    "model_files": ["Generated/GC16.v", "Model/Scopes.v", "Model/Challenge.v", "Model/AuthClient.v", "Model/Once.v", "Model/CacheSet.v", "Model/OnceSlot.v", "Model/AuthConc.v", "Model/Redirect.v"],
     "extract": "XC16.v",
     "ml_main": "c16_main.ml",
     "harness": "c16",
     "case_to_replay": _c16_case,
     "post_model": _c16_vm_sample,
     "assumptions": [
-        "Credential(ctx, hostport) returns the credential OF hostport (the model's SBasicTok/SUserPass/SRefresh/SAccess h are tainted with the host they were asked for); a CredentialFunc that ignores its argument, or returns an error, is outside the theorems (an error is not generated either)",
+        "Credential(ctx, hostport) returns the credential OF hostport (the model's SBasicTok/SUserPass/SRefresh/SAccess h are tainted with the host they were asked for); a CredentialFunc that ignores its argument is outside the theorems; a CredentialFunc that returns an ERROR is modelled (cf_cred_err, outcome ECred), generated and compared",
         "ONE host per request: the model's host is http.Request.Host, which Client.Do uses for credentials, cache and scope hints; the wire destination is Request.URL.Host. The theorems say nothing about a caller that sets Host to one registry and URL.Host to ANOTHER (the credentials of Host then travel to URL.Host: caller inconsistency, outside the property's quantifier). The harness generates Host != URL.Host only as another address (alias) of the same registry, with credentials configured for the name only; correspondence and oracle cover it",
         "the servers are unconstrained: theorems quantify over every answer script (status, Www-Authenticate header bytes, token endpoint outcome, no response) AND over every total challenge parser (parse is a parameter of do_request; no theorem depends on Model/Challenge.v); a token returned by the token endpoint during a request to h is by definition h's token (SIssued h id)",
         "Model/Challenge.v (used by the runner only) models strconv.QuotedPrefix/Unquote for quoted strings without bytes >= 0x80 and with the escapes backslash-backslash and backslash-quote; for other headers the history case line carries what the real parseChallenge returned (parse_with) and the oracle compares that with the parameters the header was rendered from (challenge-params), so the flow after such a header is still compared; pure C cases outside the subset are UNJUDGED by the model and judged by the same ground truth",
         "a Bearer challenge without realm, or with an unparsable/relative realm: the model emits the token request (realm = empty string is trivially 'advertised'), Go fails before sending; harmless over-approximation, not generated",
         "scope hints are caller input: a hint that is empty or contains a space is outside the property (the protocol cannot express it; C16_cache_key_space_refuted shows that it aliases the cache key of another scope set); such hints ARE generated and compared with the model, the clause 'reused only for the same canonical scope set' is claimed for key-safe scopes (C16_cache_key_injective) and for the shared cache only: the single-context cache ignores scopes by design (C16_single_context_cache)",
         "requests that already carry an Authorization header are passed through unmodified (first lines of Client.Do): not a model request; generated, judged by the oracle (exactly one send, header unchanged) and by the following requests of the history (the cache must not have learned anything)",
-        "redirects are followed by net/http below auth.Client, not by the modelled code: the harness answers 3xx (registry -> other registry / same host name other port / alias; token realm -> other host), scans the follow-up requests and reports the two known findings redirect-other-port-keeps-authorization and redirect-token-request-resent by mechanism (request created by a redirect + same host name resp. re-sent token request); a 401 from a redirect target is not generated (the model would treat it as the registry's own answer)",
+        "net/http's redirect policy (is the Authorization header kept, is the body kept) is modelled in Model/Redirect.v and compared with net/http on every followed redirect (RD cases: other registry, same host name other port, alias address, sub-domain; 302/307/308); C16_redirect_other_port_refuted / C16_redirect_token_post_refuted are the witnesses of the two known findings. Redirects are followed by net/http below auth.Client, not by the modelled Client.Do: the harness answers 3xx (registry -> other registry / same host name other port / alias; token realm -> other host), scans the follow-up requests and reports the two known findings redirect-other-port-keeps-authorization and redirect-token-request-resent by mechanism (request created by a redirect + same host name resp. re-sent token request); a 401 from a redirect target is not generated (the model would treat it as the registry's own answer)",
         "a send that gets no response (transport error of the underlying http.Client, or the request context cancelled at that moment) is the answer AErr of the model; cancellation while WAITING on another request's in-flight fetch is covered by the Once/CacheSet systems and the concurrent mixes, not by the sequential model",
         "thorough tier: about 310 sampled correspondence cases (all case kinds) are re-evaluated inside Coq with vm_compute against the extracted runner's output (post_model hook)",
         "encoding/json, encoding/base64, net/url query/form encoding of the token requests are observed by the harness (decoded on the fake token server) but not modelled; the 'for which host' component of a token-request event is supplied by the harness (the request being served), not observed on the wire: realm, service, scopes and grant are observations",
+        "syncutil.Once, slot bookkeeping: Model/OnceSlot.v is a slot machine whose per-caller program is the list of control paths of Once.Do after the receive, extracted from once.go by the translator kind c16_oncepaths (a statement it does not understand is UNTRANSLATABLE); C16_once_paths_release checks by computation that every path holding the slot hands it back or publishes, C16_once_slot_never_lost proves for every interleaving (callers with dead contexts included) that the slot is free, closed or owned by a caller that will release it; the recorded Once executions are replayed on it and the final slot state is compared with the hook Once.VerifSlotFree (OS cases). The defer/recover path (panic inside f) is not extracted",
         "syncutil.Once: the Go select/channel semantics are the LTS of Model/Once.v (buffered-1 channel holding true / empty / closed); runtime scheduling is quantified over as arbitrary interleavings of the visible events; panics inside f are not modelled",
-        "CONCURRENCY: the theorems about Client.Do (no cross host, budget, valid => non-401) are sequential; there is no Coq composition of CacheSet with do_request. For concurrent mixes these clauses are oracle-only (cross-host scan, <= 3 sends and <= 1 token fetch PER request, valid => ok, foreign-cancellation); the sharing clause is the Once/CacheSet theorems tied by accepted traces",
+        "CONCURRENCY: Model/AuthConc.v is Client.Do with its three cache reads as oracles and its cache write as an output (do_request is the special case, C16_sequential_is_special_case) and the system of any number of calls over one shared cache whose atomic steps are 'call j looks at the cache' and 'call j finishes'; C16_concurrent_no_cross_host holds for every interleaving. Atomicity assumption: sync.Map operations are atomic and concurrentCache.store is one atomic write (its intermediate state is a cache in which the lookup fails, which the oracle form allows). The budget (<= 3 sends, <= 1 fetch) is per call and independent of the cache, so it holds verbatim for concurrent calls (C16_budget is stated on do_request; do_request_rd has the same send structure). In concurrent mixes every call is replayed on do_request_rd with what the cache told it and what the servers answered (J cases, incl. the token of another call's in-flight fetch as answer AShare); calls that received another call's fetch ERROR are not judged (mixjob/unjudged-shared-failure). budget, outcome classification and valid => non-401 are proved on do_request_rd for arbitrary oracle answers (C16_concurrent_budget, C16_concurrent_valid_credentials_succeed); C16_store_intermediate_state: the state between the two map operations of concurrentCache.store is a host-tainted cache too",
         "concurrentCache.Set under concurrency is the transition system of Model/CacheSet.v (status map, Once instances, results; status.Delete over-approximated). Recorded executions of Set (direct and inside concurrent Client.Do mixes) are accepted by the extracted system: fetch start/end, delivered results and the identity of the in-flight entry (hook VerifInFlight, which recomputes the status key with a copy of the formula) are observed; LoadOrStore/Delete are hidden and PLACED by the harness at the latest point the observations allow, so acceptance means 'a consistent linearisation exists', not 'this was the order' (harness/cmd/c16/settrace.go)",
         "executions in which a delivered token/error cannot be attributed to exactly one fetch (Basic tokens, static access tokens, sentinel errors -- i.e. the long-lived secrets) are not judged by the Set trace acceptor (counted as settrace/*/unjudged; the harness fails if they exceed a quarter of the mixes); for them only the oracle applies",
         "C16_valid_credentials_succeed states 'valid credentials' on the outcome trace (no refused token request, no failed send, no 401 on a fresh send, no missing credential): it is the completeness of the outcome classification of C16_budget, not a statement about a server model",
     ],
     "level_text": "Coq theorems: CleanScopes is sorted, duplicate-free, idempotent, depends only on the set of its input (order/duplication/map-iteration-order insensitive) and '*' absorbs, for all byte strings; over every history of Client.Do calls with any cache flavour, credential table and server behaviour every send goes to the request's host or to a realm that host advertised and carries only that host's secrets, a Basic header reaches a host only after its Basic challenge, the cache stays host-tainted; <= 3 registry sends and <= 1 token fetch per call with a complete classification of non-success outcomes (valid credentials => the registry's non-401 answer); cache-key laws for the shared and the single-context cache; syncutil.Once as an LTS: one published result shared by all receivers, one fetch in flight, hand-over on cancellation",
-    "level_note": "clause 'cached token only for the same scope set': shared cache + key-safe scopes only (single-context cache ignores scopes by design; hints with spaces alias, refuted witness); concurrent Client.Do: oracle-only for clauses 1-3; redirects: two known findings of net/http's policy below the auth client; five defects fixed (two in CleanScopes, two in the single-context cache's Set) (duplicates of unparsable scopes; single-scope fast path disagreeing with the general path); concurrent Set executions are accepted by the CacheSet transition system (hidden map operations placed by the harness); the Go runtime is exercised, not proved; strconv.Unquote escapes are outside the challenge model",
+    "level_note": "every harness case runs under a watchdog (3 s, re-confirmed or proven from the slot state; a stream with two wedges is abandoned), a wedge is an ORACLE FAIL (once-wedged / once-slot-lost / set-wedged / do-wedged / no-progress); clause 'cached token only for the same scope set': shared cache + key-safe scopes only (single-context cache ignores scopes by design; hints with spaces alias, refuted witness); concurrent Client.Do: no-cross-host proved for every interleaving of cache reads/completions (atomic cache operations assumed), each call of a mix replayed on the oracle-read model; budget and valid => non-401 proved per call for arbitrary cache answers; redirects: two known findings of net/http's policy below the auth client; five defects fixed (two in CleanScopes, two in the single-context cache's Set) (duplicates of unparsable scopes; single-scope fast path disagreeing with the general path); concurrent Set executions are accepted by the CacheSet transition system (hidden map operations placed by the harness); the Go runtime is exercised, not proved; strconv.Unquote escapes are outside the challenge model",
     "technique": "machine-checked proof in Coq (invariants over histories, trace-acceptor LTS for Once, canonical-form algebra for scope sets) + translator-regenerated anchors/constants + model/implementation correspondence + independent oracle",
     "explanation": "theorems about executable models of scope.go, challenge.go, client.go, cache.go and syncutil/once.go; the extracted models are run against the real code on generated scope lists, challenge headers, request histories over 2-4 in-process registries/token servers with marker secrets, and Once traces; an independent oracle scans every outgoing request for foreign secrets and checks budget, validity, algebraic laws of CleanScopes and result sharing",
 }
